@@ -210,7 +210,10 @@ pub(super) fn ensure_runtime_expression_compatible<S: GraphSnapshot>(
             let list_value =
                 crate::evaluator::evaluate_expression_value(&comp.list, row, snapshot, params);
             if let Value::List(items) = list_value {
-                for item in items {
+                for (i, item) in items.into_iter().enumerate() {
+                    if i % 1024 == 1023 {
+                        params.check_timeout("ListComprehension")?;
+                    }
                     let scoped_row = row.clone().with(comp.variable.clone(), item);
                     if let Some(where_expr) = &comp.where_expression {
                         ensure_runtime_expression_compatible(
